@@ -115,7 +115,7 @@ def card_text_task(task):
     from pokerkit.utilities import Card, Rank, Suit
     L = task['L']
     cards = [Card(r, s) for r, s in itertools.product(Rank, Suit)]
-    seps = ['', ' ', ',', ', ']
+    seps = ['', ' ', ',', ', ', '\t', '\n', '  ', ' \t ']      # any white space separates, like the blank
     n = 0
     bad = []
     for k in range(1, L + 1):
@@ -135,8 +135,39 @@ def card_text_task(task):
                     if got != tuple(seq):
                         if len(bad) < 5:
                             bad.append((text, repr(got)))
-    return {'results': [], 'contract': None, 'standin': {'label': 'B', 'bound': f'all sequences of <= {L} cards over 70 cards x 4 separator '
-            f'patterns x 2 spellings of ten', 'evaluations': n, 'failures': bad}}
+    return {'results': [], 'contract': None, 'standin': {'label': 'B', 'bound': f'all sequences of <= {L} cards over 70 cards x 8 separator '
+            f'patterns (blank, comma, tab, newline, runs) x 2 spellings of ten', 'evaluations': n, 'failures': bad}}
+
+
+def helpers_rounding_task(task):
+    """label B (bounded stand-in, never counted): the deductive contracts of divmod / rake treat float and Decimal chips as the real numbers
+    they denote.  Here the real helpers run on a grid of float and Decimal amounts: the parts of divmod add up to the amount EXACTLY in
+    the same arithmetic (the remainder is computed as amount - quotient * divisor, and that difference is exact when the two are within
+    a factor of two -- Sterbenz), the parts of rake within one rounding."""
+    from decimal import Decimal
+    import fractions
+    from pokerkit.utilities import divmod as pdivmod, rake
+    bad, n = [], 0
+    floats = [0.5, 1.0, 7.25, 10.0, 29.0, 33.3, 100.0, 0.1, 12345.678, 1e6 + 0.5]
+    decs = [Decimal('0.5'), Decimal('7'), Decimal('8'), Decimal('10'), Decimal('29'), Decimal('33.3'), Decimal('1000000.01')]
+    for amount in floats + decs:
+        for divisor in range(1, 10):
+            n += 1
+            q, r = pdivmod(amount, divisor)
+            if q * divisor + r != amount:
+                if len(bad) < 5:
+                    bad.append(('divmod', repr(amount), divisor, repr(q), repr(r), repr(q * divisor + r)))
+    for amount in floats:
+        for pct in (0.0, 0.05, 0.1, 0.5):
+            for cap in (float('inf'), 3.0):
+                n += 1
+                a, b = rake(amount, percentage=pct, cap=cap)
+                if abs((a + b) - amount) > 1e-9 * max(1.0, abs(amount)) or a < 0 or b < 0 or a > cap:
+                    if len(bad) < 5:
+                        bad.append(('rake', amount, pct, cap, a, b))
+    return {'results': [], 'contract': None, 'task': 'helpers-rounding',
+            'standin': {'label': 'B', 'bound': f'{n} (amount, divisor / percentage) pairs over float and Decimal amounts', 'evaluations': n,
+                        'failures': bad}}
 
 
 def shared_c06_task(task):
@@ -175,6 +206,7 @@ def main(argv=None):
         for sh in p06.shapes(chk.tier):
             tasks.append({'module': M, 'fn': 'shared_c06_task', 'name': f'{name}/n{sh.n}', 'contract': name, 'shape': sh.as_dict(),
                           'timeout_ms': 120000 if thorough else 40000, 'weight': 20 * sh.n})
+    tasks.append({'module': M, 'fn': 'helpers_rounding_task', 'name': 'helpers-rounding'})
     tasks.append({'module': M, 'fn': 'card_roundtrip_task', 'name': 'card-roundtrip'})
     tasks.append({'module': M, 'fn': 'card_text_task', 'L': 3 if thorough else 2, 'name': 'card-text', 'weight': 50})
     chk.run_tasks(tasks)
